@@ -383,6 +383,14 @@ def check_C11(chk, tier, seed):
             ["R a1", "W", "R a2", "W", "AW 0", "P a2", "P a1"],
             ["R a1", "G 5", "AW 0", "W", "P a1"]]):
         cases.append((line(toks), toks, True))
+    # a peer that answers as soon as it has seen the beginning of a request and then ends the connection, while the client is still
+    # busy writing the rest of that request (a request larger than the pipe): the answer was sent and belongs to that request - its
+    # future yields it, however the send itself ends
+    for k, (g, end) in enumerate([(g, end) for g in (1, 20, 43) for end in ("eof", "reset", "garbage")]):
+        toks = ["R c1", f"G {hx(g)}", "P c1", f"B {end}", "W"]
+        cases.append((line(toks), toks, "answered-then-ended"))
+        toks = ["R c1", "W", "R c2", f"G {hx(g)}", "P c2", "P c1", f"B {end}", "W"]
+        cases.append((line(toks), toks, "answered-then-ended"))
     # adversarial peers (safety only): unsolicited, duplicated, wrong-id answers
     for k in range(300 if tier == "quick" else 20000):
         r = rng.fork(f"a{k}")
@@ -416,7 +424,7 @@ def check_C11(chk, tier, seed):
         chk.case(c, nreq >= 2)
         chk.validated += 1
         chk.count(f"requests:{nreq}")
-        chk.count("several-connections" if good == "multi" else "causal-distinct" if good else "adversarial-peer")
+        chk.count("several-connections" if good == "multi" else "answered-then-ended" if good == "answered-then-ended" else "causal-distinct" if good else "adversarial-peer")
         if good == "multi":
             ok, p = judge_safety(chk, "C11", c, toks, im)
             if ok:
@@ -439,6 +447,15 @@ def check_C11(chk, tier, seed):
                 chk.sample(dict(case=c, impl=short(im, 200), P=ok))
             continue
         ok, p = judge_safety(chk, "C11", c, toks, im)
+        if ok and good == "answered-then-ended":
+            outs, reader = p
+            if any(not o.startswith("GOT:") for o in outs):
+                ok = False
+                chk.violation("the peer answered a request (after at least one octet of it was written) and then ended the connection while the rest of the request was "
+                              "still being written: the future of that request did not yield the answer", dict(case=c, impl=short(im), model=short(mo)))
+            elif im != mo:
+                chk.corr_break("client observation differs from the model", dict(case=c, impl=short(im), model=short(mo)))
+            continue
         if ok and good:
             outs, reader = p
             late = completion_late(im, mo)
